@@ -32,9 +32,10 @@ VARIABLES
   cands,   \* REJECT alternatives not yet visited: Seq(<<rule, length>>)
   buf0, bol0, line0,  \* buf / bol / lineno when the current token's scan began
   phase,   \* "scan" | "act" | "rej" | "done" | "fatal"
+  eaten,   \* bytes consumed by yyinput() since the current action began
   hist     \* history (hidden from the model checker's VIEW): what was consumed
 
-svars == <<rs, opt, inp, buf, eof, sc, stk, bol, lineno, text, pfx, more, cands, buf0, bol0, line0, phase, hist>>
+svars == <<rs, opt, inp, buf, eof, sc, stk, bol, lineno, text, pfx, more, cands, buf0, bol0, line0, phase, eaten, hist>>
 
 R == RSets[rs]
 NRules == Len(R.rules)          \* including the default rule (= NRules)
@@ -64,13 +65,13 @@ SInit ==
                       rejectmode |-> FALSE, bufsize |-> 0, strictread |-> TRUE]
   /\ inp = <<>> /\ buf = <<>> /\ eof = FALSE /\ sc = 0 /\ stk = <<>> /\ bol = TRUE /\ lineno = 1
   /\ text = <<>> /\ pfx = <<>> /\ more = FALSE /\ cands = <<>> /\ buf0 = <<>> /\ bol0 = TRUE /\ line0 = 1
-  /\ phase = "done" /\ hist = <<>>
+  /\ phase = "done" /\ eaten = 0 /\ hist = <<>>
 
 \* a fresh scanner over `input`
 Reset(k, input, o) ==
   /\ rs' = k /\ opt' = o /\ inp' = input /\ buf' = <<>> /\ eof' = FALSE /\ sc' = 0 /\ stk' = <<>>
   /\ bol' = TRUE /\ lineno' = 1 /\ text' = <<>> /\ pfx' = <<>> /\ more' = FALSE /\ cands' = <<>>
-  /\ buf0' = <<>> /\ bol0' = TRUE /\ line0' = 1 /\ phase' = "scan" /\ hist' = <<>>
+  /\ buf0' = <<>> /\ bol0' = TRUE /\ line0' = 1 /\ phase' = "scan" /\ eaten' = 0 /\ hist' = <<>>
 
 \* the source delivers the next `got` bytes (0 = end of input).  While
 \* scanning this may happen only if the match is not yet decided (no
@@ -80,7 +81,7 @@ Read(got) ==
   /\ \/ phase = "scan" /\ (opt.strictread => ~MatchDecided)
      \/ phase = "act" /\ (opt.strictread => buf = <<>>)
   /\ inp' = SubSeq(inp, got + 1, Len(inp)) /\ buf' = buf \o SubSeq(inp, 1, got) /\ eof' = (got = 0)
-  /\ UNCHANGED <<rs, opt, sc, stk, bol, lineno, text, pfx, more, cands, buf0, bol0, line0, phase, hist>>
+  /\ UNCHANGED <<rs, opt, sc, stk, bol, lineno, text, pfx, more, cands, buf0, bol0, line0, phase, eaten, hist>>
 
 \* candidate c = <<rule, match length>> taken against the token-start text w
 Take(c, w, b0, l0, h) ==
@@ -104,13 +105,13 @@ Match(rule, h) ==
      /\ IF rule = NRules   \* default rule: its action (ECHO) is not scripted and ends at once
         THEN /\ phase' = "scan" /\ pfx' = <<>> /\ more' = FALSE /\ cands' = <<>>
         ELSE /\ phase' = "act" /\ cands' = Tail(cs) /\ UNCHANGED <<pfx, more>>
-  /\ hist' = Append(hist, <<"tok", rule, text'>>)
+  /\ hist' = Append(hist, <<"tok", rule, text'>>) /\ eaten' = 0
   /\ UNCHANGED <<rs, opt, inp, eof, sc, stk>>
 
 Reject ==
   /\ phase = "act" /\ cands # <<>>
   /\ phase' = "rej"
-  /\ UNCHANGED <<rs, opt, inp, buf, eof, sc, stk, bol, lineno, text, pfx, more, cands, buf0, bol0, line0, hist>>
+  /\ UNCHANGED <<rs, opt, inp, buf, eof, sc, stk, bol, lineno, text, pfx, more, cands, buf0, bol0, line0, eaten, hist>>
 
 \* the next-best alternative at the same position
 MatchAgain(rule, h) ==
@@ -120,11 +121,11 @@ MatchAgain(rule, h) ==
      THEN /\ phase' = "scan" /\ pfx' = <<>> /\ more' = FALSE /\ cands' = <<>>
      ELSE /\ phase' = "act" /\ cands' = Tail(cands) /\ UNCHANGED <<pfx, more>>
   /\ hist' = Append(hist, <<"tok", rule, text'>>)
-  /\ UNCHANGED <<rs, opt, inp, eof, sc, stk, buf0, bol0, line0>>
+  /\ UNCHANGED <<rs, opt, inp, eof, sc, stk, buf0, bol0, line0, eaten>>
 
 ActEnd ==
   /\ phase = "act" /\ phase' = "scan" /\ EndEffects
-  /\ UNCHANGED <<rs, opt, inp, buf, eof, sc, stk, bol, lineno, text, buf0, bol0, line0, hist>>
+  /\ UNCHANGED <<rs, opt, inp, buf, eof, sc, stk, bol, lineno, text, buf0, bol0, line0, eaten, hist>>
 
 \* yyless(n): keep the first n bytes of yytext, rescan the rest
 Less(n) ==
@@ -133,11 +134,11 @@ Less(n) ==
   /\ buf' = SubSeq(text, n + 1, Len(text)) \o buf
   /\ lineno' = IF opt.lno THEN lineno - CountNL(SubSeq(text, n + 1, Len(text))) ELSE lineno
   /\ hist' = Append(hist, <<"less", n>>)
-  /\ UNCHANGED <<rs, opt, inp, eof, sc, stk, bol, pfx, more, cands, buf0, bol0, line0, phase>>
+  /\ UNCHANGED <<rs, opt, inp, eof, sc, stk, bol, pfx, more, cands, buf0, bol0, line0, phase, eaten>>
 
 More ==
   /\ phase = "act" /\ more' = TRUE
-  /\ UNCHANGED <<rs, opt, inp, buf, eof, sc, stk, bol, lineno, text, pfx, cands, buf0, bol0, line0, phase, hist>>
+  /\ UNCHANGED <<rs, opt, inp, buf, eof, sc, stk, bol, lineno, text, pfx, cands, buf0, bol0, line0, phase, eaten, hist>>
 
 \* yyunput(c): c will be the next byte read
 Unput(c) ==
@@ -145,7 +146,7 @@ Unput(c) ==
   /\ buf' = <<c>> \o buf
   /\ lineno' = IF opt.lno /\ c = NL THEN lineno - 1 ELSE lineno
   /\ hist' = Append(hist, <<"unput", c>>)
-  /\ UNCHANGED <<rs, opt, inp, eof, sc, stk, bol, text, pfx, more, cands, buf0, bol0, line0, phase>>
+  /\ UNCHANGED <<rs, opt, inp, eof, sc, stk, bol, text, pfx, more, cands, buf0, bol0, line0, phase, eaten>>
 
 \* yyinput() returns the next byte ...
 Input(c) ==
@@ -153,7 +154,7 @@ Input(c) ==
   /\ buf' = Tail(buf)
   /\ lineno' = IF opt.lno /\ c = NL THEN lineno + 1 ELSE lineno
   /\ bol' = IF opt.bolneeded THEN c = NL ELSE bol
-  /\ hist' = Append(hist, <<"input", c>>)
+  /\ hist' = Append(hist, <<"input", c>>) /\ eaten' = eaten + 1
   /\ UNCHANGED <<rs, opt, inp, eof, sc, stk, text, pfx, more, cands, buf0, bol0, line0, phase>>
 \* ... or its end-of-input value, only when no input remains at all
 \* (the exhausted source is restarted: it will be asked again, and what comes
@@ -161,30 +162,30 @@ Input(c) ==
 InputEnd ==
   /\ phase = "act" /\ buf = <<>> /\ inp = <<>> /\ eof
   /\ eof' = FALSE /\ bol' = TRUE
-  /\ UNCHANGED <<rs, opt, inp, buf, sc, stk, lineno, text, pfx, more, cands, buf0, bol0, line0, phase, hist>>
+  /\ UNCHANGED <<rs, opt, inp, buf, sc, stk, lineno, text, pfx, more, cands, buf0, bol0, line0, phase, eaten, hist>>
 
 Begin(s) ==
   /\ phase \in {"act", "scan", "done"} /\ sc' = s
-  /\ UNCHANGED <<rs, opt, inp, buf, eof, stk, bol, lineno, text, pfx, more, cands, buf0, bol0, line0, phase, hist>>
+  /\ UNCHANGED <<rs, opt, inp, buf, eof, stk, bol, lineno, text, pfx, more, cands, buf0, bol0, line0, phase, eaten, hist>>
 Push(s) ==
   /\ phase \in {"act", "scan", "done"} /\ stk' = Append(stk, sc) /\ sc' = s
-  /\ UNCHANGED <<rs, opt, inp, buf, eof, bol, lineno, text, pfx, more, cands, buf0, bol0, line0, phase, hist>>
+  /\ UNCHANGED <<rs, opt, inp, buf, eof, bol, lineno, text, pfx, more, cands, buf0, bol0, line0, phase, eaten, hist>>
 Pop ==
   /\ phase \in {"act", "scan", "done"} /\ stk # <<>> /\ sc' = Last(stk) /\ stk' = Front(stk)
-  /\ UNCHANGED <<rs, opt, inp, buf, eof, bol, lineno, text, pfx, more, cands, buf0, bol0, line0, phase, hist>>
+  /\ UNCHANGED <<rs, opt, inp, buf, eof, bol, lineno, text, pfx, more, cands, buf0, bol0, line0, phase, eaten, hist>>
 \* popping the empty stack is a reported fatal error
 PopUnderflow ==
   /\ stk = <<>> /\ phase' = "fatal"
-  /\ UNCHANGED <<rs, opt, inp, buf, eof, sc, stk, bol, lineno, text, pfx, more, cands, buf0, bol0, line0, hist>>
+  /\ UNCHANGED <<rs, opt, inp, buf, eof, sc, stk, bol, lineno, text, pfx, more, cands, buf0, bol0, line0, eaten, hist>>
 TopIs(v) == v = (IF stk = <<>> THEN sc ELSE Last(stk))
 SetBol(v) ==
   /\ bol' = v
-  /\ UNCHANGED <<rs, opt, inp, buf, eof, sc, stk, lineno, text, pfx, more, cands, buf0, bol0, line0, phase, hist>>
+  /\ UNCHANGED <<rs, opt, inp, buf, eof, sc, stk, lineno, text, pfx, more, cands, buf0, bol0, line0, phase, eaten, hist>>
 
 \* the action returns to the caller of yylex
 Return ==
   /\ phase = "act" /\ phase' = "scan" /\ EndEffects
-  /\ UNCHANGED <<rs, opt, inp, buf, eof, sc, stk, bol, lineno, text, buf0, bol0, line0, hist>>
+  /\ UNCHANGED <<rs, opt, inp, buf, eof, sc, stk, bol, lineno, text, buf0, bol0, line0, eaten, hist>>
 
 \* end of input: nothing buffered, source exhausted; the <<EOF>> action of
 \* the current condition (k = 0: the default one) runs and yylex returns 0
@@ -193,12 +194,18 @@ AtEof(k) ==
   /\ k = EofRule(R, sc + 1)
   /\ phase' = "done" /\ pfx' = <<>> /\ more' = FALSE /\ cands' = <<>>
   /\ bol' = TRUE      \* the exhausted source is restarted: next input begins a line
-  /\ UNCHANGED <<rs, opt, inp, buf, eof, sc, stk, lineno, text, buf0, bol0, line0, hist>>
+  /\ UNCHANGED <<rs, opt, inp, buf, eof, sc, stk, lineno, text, buf0, bol0, line0, eaten, hist>>
 
 \* fatal errors the manual documents
-FatalRejectOverflow ==   \* REJECT scanner whose token does not fit its buffer
-  /\ opt.rejectmode /\ phase = "scan" /\ opt.bufsize > 0
-  /\ Len(pfx) + Len(buf) + 1 >= opt.bufsize
+InBufPfx == IF opt.array THEN 0 ELSE Len(pfx)
+FatalRejectOverflow ==   \* REJECT scanner whose token does not fit its non-growing buffer
+  /\ opt.rejectmode /\ opt.bufsize > 0
+  /\ \/ phase = "scan" /\ InBufPfx + Len(buf) + 1 >= opt.bufsize
+     \/ phase = "act" /\ buf = <<>> /\ Len(text) + eaten + 1 >= opt.bufsize   \* refill asked by yyinput()
   /\ phase' = "fatal"
-  /\ UNCHANGED <<rs, opt, inp, buf, eof, sc, stk, bol, lineno, text, pfx, more, cands, buf0, bol0, line0, hist>>
+  /\ UNCHANGED <<rs, opt, inp, buf, eof, sc, stk, bol, lineno, text, pfx, more, cands, buf0, bol0, line0, eaten, hist>>
+FatalPushback ==         \* yyunput() beyond the push-back capacity (the buffer is full of pending text)
+  /\ phase = "act" /\ opt.bufsize > 0 /\ Len(buf) + 3 >= opt.bufsize
+  /\ phase' = "fatal"
+  /\ UNCHANGED <<rs, opt, inp, buf, eof, sc, stk, bol, lineno, text, pfx, more, cands, buf0, bol0, line0, eaten, hist>>
 =============================================================================
